@@ -993,6 +993,9 @@ func (col *Collector) Snapshot() ([]byte, error, bool) {
 	}
 }
 
+// Done is closed when the connection has ended (EOF or error at the client).
+func (col *Collector) Done() <-chan struct{} { return col.done }
+
 // Len is the number of bytes collected.
 func (col *Collector) Len() int {
 	col.mu.Lock()
